@@ -1066,14 +1066,54 @@ class PendingFunctionDef(_PendingCompoundStmt[FunctionDef]):
                 keywords=[],
             )
 
-        if self.internal_nsp.is_method and self.node.name == "__init_subclass__":
-            # We need to add a @classmethod for __init_subclass__
-            # that's really weird, but really solves problem
-            body_expr = Call(
-                func=Name(id="classmethod", ctx=Load()),
-                args=[body_expr],
-                keywords=[],
-            )
+        if self.internal_nsp.is_method and self.node.name in (
+            "__init_subclass__",
+            "__class_getitem__",
+        ):
+            # Python turns a plain function with one of these names into
+            # a classmethod when the class is created. Members are attached
+            # after creation here, so the classmethod is added explicitly.
+            if not self.node.decorator_list:
+                body_expr = Call(
+                    func=Name(id="classmethod", ctx=Load()),
+                    args=[body_expr],
+                    keywords=[],
+                )
+            else:
+                # a decorator may already have returned something else
+                # than a plain function (e.g. an explicit @classmethod)
+                hook_name = Name(id=ol_name(OL_ASSIGN_TMP))
+                body_expr = IfExp(
+                    test=Call(
+                        func=Name(id="isinstance", ctx=Load()),
+                        args=[
+                            NamedExpr(target=hook_name, value=body_expr),
+                            Call(
+                                func=Name(id="type", ctx=Load()),
+                                args=[
+                                    Lambda(
+                                        args=arguments(
+                                            posonlyargs=[],
+                                            args=[],
+                                            kwonlyargs=[],
+                                            kw_defaults=[],
+                                            defaults=[],
+                                        ),
+                                        body=Constant(value=0),
+                                    )
+                                ],
+                                keywords=[],
+                            ),
+                        ],
+                        keywords=[],
+                    ),
+                    body=Call(
+                        func=Name(id="classmethod", ctx=Load()),
+                        args=[hook_name],
+                        keywords=[],
+                    ),
+                    orelse=hook_name,
+                )
 
         return [self.nsp.get_assign(self.node.name, body_expr)]
 
